@@ -170,7 +170,9 @@ class Check:
 		observes is passed to THIS check's universal observers (the witness is the foreign case)"""
 		import importlib
 		mod = importlib.import_module(f"serifmon.props.{other_pid.lower()}")
-		sub = Check(other_pid, "quick", self.seed, self.part, self.nparts, runners=mod.RUNNERS, foreign=True)
+		# a foreign workload is there for its variety of results, not for its own exhaustiveness: take one third of its enumerations
+		nparts = max(self.nparts, 3) if self.tier == "quick" else self.nparts
+		sub = Check(other_pid, "quick", self.seed, (self.seed + self.part) % nparts, nparts, runners=mod.RUNNERS, foreign=True)
 		sub.rng = random.Random(f"{self.pid}/foreign/{other_pid}/{self.seed}/{self.part}")
 		sub.funcs = self.funcs
 		main = self
